@@ -20,7 +20,7 @@ Space     N in {1,2,3,5,8} paths  x  ALL sequences of terminal spot values over 
           thorough = everything (N = 8 and A4 with N = 5 on the full lattice).
 
 Oracle    (pure-Python reference, math.fsum; least squares by SVD - independent of the library's covariance/inverse route)
-  calls   simulate_one_path is called exactly N times, pre_computation with N;
+  calls   simulate_one_path is called exactly N times;
   rows    stored payoff row i = (notional*payoff(path_i))*df for i = 0..N-1 in order, exactly N rows; same for the control
           rows; spot row i = terminal spot of path i when spot statistics are activated;
   price   price(no_control_variates=True) = arithmetic mean of the rows, one value per payoff component;
@@ -179,7 +179,7 @@ def _obs_fingerprint(obs):
     def f(a):
         return None if a is None else np.asarray(a).tobytes()
 
-    return (repr(obs["exc"]), obs.get("raw_price"), obs.get("price"), obs.get("raw_se"), obs.get("se"), f(obs.get("Y")),
+    return (repr(obs["exc"]), repr(obs.get("raw_price")), repr(obs.get("price")), repr(obs.get("raw_se")), repr(obs.get("se")), f(obs.get("Y")),
             f(obs.get("X")), f(obs.get("A")) if obs.get("X") is not None else None, f(obs.get("spot")), obs["calls"], tuple(obs["log"]))
 
 
@@ -215,9 +215,6 @@ def check_run(sh, case, letters, obs):
     if obs["calls"] != n:
         sh.violation(f"C07:calls:simulate_one_path:count-differs-from-configured-paths",
                      f"{obs['calls']} paths were simulated for mc_paths={n}", detail0)
-    pre = [e for e in obs["log"] if e[0] == "pre_computation"]
-    if pre and any(e[1] != n for e in pre):
-        sh.violation("C07:calls:pre_computation:not-called-with-configured-paths", f"pre_computation calls {pre} for mc_paths={n}", detail0)
 
     scale = max(nt * df, max((abs(v) for row in Y for v in row), default=0.0))
 
@@ -379,7 +376,7 @@ def check_run(sh, case, letters, obs):
                         kind = "controls-dropped"
                 what = (f"price()[{c}] = {obs['price'][c]!r} but mean of Y - b*(X - price_X) = {price_ref!r}" if not price_ok else
                         f"adjusted rows of component {c} = {a_lib.tolist()} but Y - b*(X - price_X) = {a_ref.tolist()}")
-                sh.violation(f"C07:cv:adjustment:not-Y-minus-regression-coefficient-times-(X-price):{kind}:{cvk}:{dimk}",
+                sh.violation(f"C07:cv:adjustment:not-the-regression-adjustment:{kind}:{cvk}:{dimk}",
                              what + f" with b* = {b_ref.tolist()} (raw mean {mean_ref[c]!r}, given prices {p.tolist()}, control means {xm.tolist()})",
                              dict(det, adjusted_rows_library=None if a_lib is None else a_lib.tolist(), adjusted_rows_reference=a_ref.tolist()))
             elif n >= 2:
@@ -407,7 +404,7 @@ def check_run(sh, case, letters, obs):
                     res = diff - M @ b_any
                     ok_form = bool(np.max(np.abs(res)) <= 1e-9 * sc)
                 if not ok_form:
-                    sh.violation(f"C07:cv:rows:adjusted-rows-not-of-the-form-Y-minus-b(X-price):rank-deficient-controls:{cvk}:{dimk}",
+                    sh.violation(f"C07:cv:rows:adjusted-rows-not-a-control-variate-adjustment:rank-deficient-controls:{cvk}:{dimk}",
                                  f"adjusted rows of component {c} = {a_lib.tolist()} are not Y - b(X - price_X) for any b", det)
                 # price and error are the mean / standard error of those rows
                 if ok_form and not core.close(obs["price"][c], U.fmean(list(a_lib)), rtol=1e-9, atol=1e-12 * sc, scale=sc):
